@@ -107,9 +107,12 @@ type SimConn struct {
 	rd, wr *pipeHalf
 	faults ConnFaults
 
-	wmu     sync.Mutex
-	nwrites int
-	splitIx int
+	wmu        sync.Mutex
+	nwrites    int
+	splitIx    int
+	lateWrites int    // Write calls after this endpoint was closed
+	closeHook  func() // called once, on the first Close of this endpoint
+	closeOnce  sync.Once
 
 	local, remote simAddr
 }
@@ -258,6 +261,9 @@ func (c *SimConn) Write(b []byte) (int, error) {
 	h.mu.Lock()
 	defer h.mu.Unlock()
 	if h.wclosed || h.reset {
+		c.wmu.Lock()
+		c.lateWrites++
+		c.wmu.Unlock()
 		return 0, closedErr("write")
 	}
 	if c.faults.FailWriteAt > 0 && nw >= c.faults.FailWriteAt {
@@ -299,6 +305,9 @@ func (c *SimConn) Write(b []byte) (int, error) {
 // octets already written. It never sleeps (it is called under Conn.locker).
 func (c *SimConn) Close() error {
 	now := time.Now().UnixNano()
+	if c.closeHook != nil {
+		c.closeOnce.Do(c.closeHook)
+	}
 	c.rd.mu.Lock()
 	already := c.rd.rclosed
 	c.rd.rclosed = true
@@ -424,6 +433,17 @@ type SimListener struct {
 	Errors     int
 	CloseCalls int
 	LateOffers int // connections offered after Close
+	accepting  bool
+}
+
+// WaitAccepting blocks until Serve has called Accept for the first time, i.e.
+// until the server has registered this listener.
+func (l *SimListener) WaitAccepting() {
+	l.mu.Lock()
+	for !l.accepting && !l.closed {
+		l.cond.Wait()
+	}
+	l.mu.Unlock()
 }
 
 func NewSimListener(class int) *SimListener {
@@ -449,6 +469,10 @@ func (l *SimListener) Offer(c net.Conn, err error) bool {
 func (l *SimListener) Accept() (net.Conn, error) {
 	l.mu.Lock()
 	defer l.mu.Unlock()
+	if !l.accepting {
+		l.accepting = true
+		l.cond.Broadcast()
+	}
 	for {
 		if l.closed {
 			return nil, closedErr("accept")
